@@ -374,6 +374,12 @@ class sptensor:
         # Store everything
         return cls(newsubs, newvals, shape, copy=False)
 
+    def _dense_vals_at_subs(self, other: ttb.tensor) -> np.ndarray:
+        """Values of a dense tensor at the stored subscripts, as a column vector."""
+        if self.nnz == 0:
+            return np.empty((0, 1), dtype=other.data.dtype)
+        return other.data[tuple(self.subs.transpose())].reshape((-1, 1))
+
     def copy(self) -> sptensor:
         """
         Return a deep copy of the :class:`pyttb.sptensor`.
@@ -2695,8 +2701,8 @@ class sptensor:
             # Find where their nonzeros intersect
             znzsubs = np.empty(shape=(0, other.ndims), dtype=int)
             if self.nnz > 0:
-                othervals = other[self.subs]
-                znzsubs = self.subs[(othervals[:, None] == self.vals).transpose()[0], :]
+                othervals = self._dense_vals_at_subs(other)
+                znzsubs = self.subs[(othervals == self.vals).transpose()[0], :]
 
             return sptensor(
                 np.vstack((zzerosubs, znzsubs)),
@@ -2993,8 +2999,10 @@ class sptensor:
                 self.shape,
             )
         if isinstance(other, ttb.tensor):
+            if self.nnz == 0:
+                return self.copy()
             csubs = self.subs
-            cvals = self.vals * other[csubs][:, None]
+            cvals = self.vals * self._dense_vals_at_subs(other)
             return ttb.sptensor(csubs, cvals, self.shape)
         if isinstance(other, ttb.ktensor):
             csubs = self.subs
@@ -3370,8 +3378,10 @@ class sptensor:
             return ttb.sptensor(newsubs, newvals, self.shape)
 
         if isinstance(other, ttb.tensor):
+            if self.nnz == 0:
+                return self.copy()
             csubs = self.subs
-            cvals = self.vals / other[csubs][:, None]
+            cvals = self.vals / self._dense_vals_at_subs(other)
             return ttb.sptensor(csubs, cvals, self.shape)
         if isinstance(other, ttb.ktensor):
             # TODO consider removing epsilon and generating nans consistent with above
